@@ -14,6 +14,7 @@
 //!        -> `I=<entries>` | `I=Err:<kind>` | `I=Panic`        (cram::fs::index on the merged file)
 //!   mqry per_slice reflens seqseed records p0 groups mlayout regions mode
 //!        -> `Q=<answers>`                                     (Reader::query / IndexedReader::query)
+//!   mqbad ... regions mode k -> as mqry with entry k of the index carrying landmark+1 (InvalidData)
 //!   unm  per_slice reflens seqseed records p0 groups mlayout mode
 //!        -> `U=<ordinals>`                                    (query_unmapped)
 //!   via  per_slice reflens seqseed records p0 groups mlayout regions
@@ -630,6 +631,58 @@ pub fn run_mqry(c: &Case) -> Obs {
     Obs::ok(format!("Q={obs}"), nontrivial).with_verdict(verdict)
 }
 
+/// args: base(7) regions mode k -- as mqry, but entry k of the index carries landmark + 1 (not a
+/// slice of its container): a query that reaches it must fail with InvalidData, the others
+/// must still equal the scan
+pub fn run_mqbad(c: &Case) -> Obs {
+    let b = match mbuild(c, false) {
+        Ok(b) => b,
+        Err(o) => return o,
+    };
+    let regions = parse_regions(&c.args[7]);
+    let mode = c.u(8);
+    let k = c.u(9) as usize;
+    let Some(chunks) = slice_chunks(&b.spec, &b.conts) else {
+        return Obs::fail("-", "cram-container-record-counts", fmt_mlayout(&b.conts));
+    };
+    let index = real_or_expected_index(&b, c, &chunks);
+    if k >= index.len() {
+        return Obs::fail("-", "harness-bad-case", format!("entry {k} of {}", index.len()));
+    }
+    let mut entries: Vec<Entry> = index.iter().map(entry_of).collect();
+    entries[k].4 += 1;
+    let bad_rid = entries[k].0;
+    let bad: crai::Index = entries.iter().map(record_of).collect();
+    let answers = query_all(&b, &bad, &regions, mode);
+    // regions on the reference of the damaged entry must be errors; judge the others as usual
+    let n = b.spec.recs.len();
+    let mut parts = Vec::new();
+    let mut verdict: Result<(), (String, String)> = Ok(());
+    let mut rest_regions = Vec::new();
+    let mut rest_answers = Vec::new();
+    for (&(r, lo, hi), a) in regions.iter().zip(answers) {
+        parts.push(fmt_ans(&a, n));
+        if Some(r) == bad_rid {
+            match &a {
+                Ans::Err(kind) if kind == "InvalidData" => {}
+                _ => {
+                    if verdict.is_ok() {
+                        verdict = Err(("cram-query-bad-landmark-accepted".into(), format!("region sq{r}: {}", fmt_ans(&a, n))));
+                    }
+                }
+            }
+        } else {
+            rest_regions.push((r, lo, hi));
+            rest_answers.push(a);
+        }
+    }
+    let (_, v2, _) = judge_queries(&b, &chunks, &rest_regions, &rest_answers);
+    if verdict.is_ok() {
+        verdict = v2;
+    }
+    Obs::ok(format!("Q={}", if parts.is_empty() { "_".into() } else { parts.join(";") }), bad_rid.is_some()).with_verdict(verdict)
+}
+
 pub fn run_unm(c: &Case) -> Obs {
     let b = match mbuild(c, false) {
         Ok(b) => b,
@@ -1000,6 +1053,31 @@ pub fn generate_multi(rng: &mut Rng, thorough: bool, w: &mut CaseWriter) {
         let mut a = base.clone();
         a.push(rng.below(2).to_string());
         w.push("unm", a);
+        if i % 4 == 1 {
+            // number of index entries: one per distinct reference (and unmapped) per slice
+            let nent: usize = {
+                let mut k = 0usize;
+                let mut cnt = 0usize;
+                for cont in base[6].split(';').filter(|t| *t != "_") {
+                    for sl in cont.split(':').nth(3).unwrap_or("").split(',').filter(|t| !t.is_empty()) {
+                        let n: usize = sl.split('/').nth(2).unwrap().parse().unwrap();
+                        let mut rids: Vec<Option<usize>> = spec.recs[k..k + n].iter().map(|r| r.rid).collect();
+                        rids.sort();
+                        rids.dedup();
+                        cnt += rids.len();
+                        k += n;
+                    }
+                }
+                cnt
+            };
+            if nent > 0 {
+                let mut a = base.clone();
+                a.push(gen_regions(rng, &spec, 8));
+                a.push(rng.below(3).to_string());
+                a.push(rng.below(nent as u64).to_string());
+                w.push("mqbad", a);
+            }
+        }
         if i % 2 == 0 {
             let mut a = base;
             a.push(gen_regions(rng, &spec, 6));
